@@ -40,10 +40,30 @@
    witnesses of the findings C13-local-named-like-its-procedure, C13-type-use-shadowed-by-local,
    C13-rename-predefined-procedure and C13-local-named-int; on these four witnesses it HOLDS now
    (C13_repaired_witnesses_agree).
-   STATED ONLY: C13_roundtrip_statement (apply the edits, same diagnostics, same bindings, rename
-   back).  It is validated by the check (correspondence, derivation-based oracle, the judge deciding
-   the instances of C13_full_statement on generated programs - command 37 -, round-trip oracle with an
-   independent edit model on the real server), not proved. *)
+   The SECOND half (apply the edits of a rename to a fresh name: same diagnostics, the same occurrences bound
+   together, renaming back restores the text; C13_roundtrip_statement = Spec/Nav.v roundtrip_statement), at the end
+   of this file:
+   PROVED  C13_roundtrip_valid - for every valid program in every layout (hypotheses of C13_valid), every
+   occurrence o with a declaration except the procedure `main`, and every new name that is a valid identifier,
+   spelled nowhere in the document and not predefined ([fresh_for]; Spec/Nav.v [fresh_name] implies it): the
+   edited text t' is a layout of the well-typed abstract program p' (= p with the identifier tokens of the binding
+   respelled), the server analyses it to that tree without any diagnostic, lexical errors do not appear, the
+   occurrences correspond position by position and are bound together exactly as before, and rename at the
+   same occurrence of t' with the old name returns edits that restore t.
+   PROVED  C13_roundtrip - the same in the wording of roundtrip_statement (documents without diagnostics,
+   [clean_doc], on both sides), by the completeness of the front end (Proofs/CompleteFront.v): roundtrip_statement
+   with the one additional hypothesis "o is not the procedure main".
+   REFUTED C13_roundtrip_statement itself (C13_roundtrip_statement_refuted, witness C13_roundtrip_main_witness):
+   `proc main() {}` - rename on `main` to `m` is offered, the result `proc m() {}` gets the diagnostic
+   MainIsMissing; prepareRename / rename do not refuse the procedure `main` (finding C13-rename-main).
+   Proof: Proofs/RefsRoundText.v (the LSP text model: edits on the flagged pieces of a text, applied last first),
+   Proofs/RefsRoundLex.v (lexer: respelling identifier tokens; needs "no literal directly in front of an identifier",
+   Proofs/RefsRoundNoLit.v), Proofs/RefsRoundAsc.v (the walks list their identifiers in ascending token order, so the
+   edits are the selected token ranges in text order), Proofs/RefsRoundDefs.v / RefsRoundAbs.v / RefsRoundOcc.v
+   (renamings on abstract programs, trees, tables; expected (renamed p) = renamed (expected p); occurrences of a renamed
+   tree), Proofs/RefsRoundTyping.v (alpha-renaming: renaming by name preserves Spec/Typing.v well_typed),
+   Proofs/RefsRoundKey.v (the renaming of one binding is such a renaming by name; keys are preserved),
+   Proofs/RefsRound.v (assembly), Proofs/RefsRoundClean.v (clean_doc wording, refutation for main). *)
 From Coq Require Import Permutation.
 From Spl Require Import Proofs.GrammarProofs Spec.Typing Proofs.TypingProofs Proofs.RenderProofs Proofs.PipelineText.
 From Spl Require Props.C14.
@@ -283,7 +303,8 @@ Example C13_valid_eval :
 Proof. vm_compute. repeat split. Qed.
 
 (* 10. second half: applying a rename to a fresh name (edits applied with the text model of C08,
-       Doc.apply_changes, last edit first).  Stated, not proved. *)
+       Doc.apply_changes, last edit first).  The statement; proved for every binding but the procedure main and
+       refuted for main at the end of this file (C13_roundtrip_valid, C13_roundtrip, C13_roundtrip_statement_refuted). *)
 Definition C13_roundtrip_statement : Prop := roundtrip_statement.
 Example C13_roundtrip_statement_unfold :
   C13_roundtrip_statement =
@@ -413,3 +434,81 @@ From Spl Require Proofs.CompleteFront.
 Theorem C13_full : C13_full_statement.
 Proof. exact CompleteFront.full_statement_refs_holds. Qed.
 Print Assumptions C13_full.
+
+(* 10b. the second half, proved on VALID programs in any layout (p, G, t, toks, d as in C13_valid): for the n-th
+        occurrence o, bound to a declaration, not the procedure main; new fresh ([fresh_for]: a valid identifier
+        that is no keyword, no token of the document, not predefined); es = the edits rename returns at a cursor
+        position inside o's token; t' = the text after the edits.  Then t' is a layout of a well-typed abstract
+        program p' again, analysed to d' = (t', toks', expected p', G') without diagnostic, without new lexical
+        errors; the occurrences of d' correspond to those of d position by position and are bound together alike;
+        rename at the n-th occurrence of d' with the old name gives edits that turn t' back into t. *)
+From Spl Require Proofs.RefsRound Proofs.RefsRoundClean.
+Theorem C13_roundtrip_valid : forall (p : aprog) (G : gtable) (t : text) (toks : list token) (d : doc) n o l c new es t',
+  prog_ok p = true -> well_typed (expected p) G ->
+  lex t = Some toks -> map tk toks = flatten p ++ [Eof] ->
+  new_doc_res t = ODone d ->
+  nth_error (occurrences (d_ast d)) n = Some o -> binding (occurrences (d_ast d)) o <> None ->
+  cursor_inside d o l c -> RefsRound.fresh_for (d_toks d) new ->
+  ~ ((o_role o = RProcDecl \/ o_role o = RCall) /\ o_name o = s_main) ->
+  rename d l c = ROk (Some es) -> apply_rename t es new = Some t' ->
+  exists (p' : aprog) (G' : gtable) (toks' : list token) (d' : doc),
+    prog_ok p' = true /\ well_typed (expected p') G' /\ lex t' = Some toks' /\ map tk toks' = flatten p' ++ [Eof]
+    /\ new_doc_res t' = ODone d' /\ doc_errors_res d' = ROk []
+    /\ (Forall (fun x => terr x = []) (d_toks d) -> Forall (fun x => terr x = []) (d_toks d'))
+    /\ length (occurrences (d_ast d')) = length (occurrences (d_ast d))
+    /\ (forall i j a b a' b',
+          nth_error (occurrences (d_ast d)) i = Some a -> nth_error (occurrences (d_ast d)) j = Some b ->
+          nth_error (occurrences (d_ast d')) i = Some a' -> nth_error (occurrences (d_ast d')) j = Some b' ->
+          same_entity (occurrences (d_ast d')) a' b' = same_entity (occurrences (d_ast d)) a b)
+    /\ (forall o' l' c',
+          nth_error (occurrences (d_ast d')) n = Some o' -> cursor_inside d' o' l' c' ->
+          exists es', rename d' l' c' = ROk (Some es') /\ apply_rename t' es' (o_name o) = Some t).
+Proof. exact RefsRound.roundtrip_valid. Qed.
+Print Assumptions C13_roundtrip_valid.
+
+Example C13_fresh_for_unfold : forall toks new,
+  RefsRound.fresh_for toks new =
+  (FormatProofs.ident_ok new /\ (forall tok, In tok toks -> tk tok <> Ident new)
+   /\ existsb (text_eqb new) default_entries = false).
+Proof. reflexivity. Qed.
+
+(* the freshness condition of Spec/Nav.v implies the one used above *)
+Theorem C13_fresh_name_for : forall d new, fresh_name d new -> RefsRound.fresh_for (d_toks d) new.
+Proof. exact RefsRoundClean.fresh_name_for. Qed.
+Print Assumptions C13_fresh_name_for.
+
+(* 10c. ... and in the wording of C13_roundtrip_statement (documents without diagnostics on both sides): the
+        statement holds with the additional hypothesis that o is not the procedure main *)
+Theorem C13_roundtrip : forall t d n o l c new es t',
+  clean_doc t d -> nth_error (occurrences (d_ast d)) n = Some o -> binding (occurrences (d_ast d)) o <> None ->
+  cursor_inside d o l c -> fresh_name d new ->
+  ~ ((o_role o = RProcDecl \/ o_role o = RCall) /\ o_name o = s_main) ->
+  rename d l c = ROk (Some es) -> apply_rename t es new = Some t' ->
+  exists d',
+    clean_doc t' d'
+    /\ length (occurrences (d_ast d')) = length (occurrences (d_ast d))
+    /\ (forall i j a b a' b',
+          nth_error (occurrences (d_ast d)) i = Some a -> nth_error (occurrences (d_ast d)) j = Some b ->
+          nth_error (occurrences (d_ast d')) i = Some a' -> nth_error (occurrences (d_ast d')) j = Some b' ->
+          same_entity (occurrences (d_ast d')) a' b' = same_entity (occurrences (d_ast d)) a b)
+    /\ (forall o' l' c',
+          nth_error (occurrences (d_ast d')) n = Some o' -> cursor_inside d' o' l' c' ->
+          exists es', rename d' l' c' = ROk (Some es') /\ apply_rename t' es' (o_name o) = Some t).
+Proof. exact RefsRoundClean.roundtrip_clean. Qed.
+Print Assumptions C13_roundtrip.
+
+(* 10d. without that hypothesis the statement is false: renaming the procedure main is offered and breaks the
+        program (finding C13-rename-main) *)
+Example C13_roundtrip_main_witness :
+  let w := RefsRoundClean.witness_main in
+  is_clean w = true
+  /\ map (fun o => (o_role o, o_name o)) (occurrences (d_ast (doc_of w))) = [(RProcDecl, s_main)]
+  /\ prepare_rename (doc_of w) 0 5 = ROk (Some ((0, 5), (0, 9)))
+  /\ rename (doc_of w) 0 5 = ROk (Some [((0, 5), (0, 9))])
+  /\ apply_rename w [((0, 5), (0, 9))] [109] = Some RefsRoundClean.witness_main_renamed
+  /\ doc_errors_res (doc_of RefsRoundClean.witness_main_renamed) = ROk [(4, 4, EBuild MainIsMissing)].
+Proof. vm_compute. repeat split. Qed.
+
+Theorem C13_roundtrip_statement_refuted : ~ C13_roundtrip_statement.
+Proof. exact RefsRoundClean.roundtrip_statement_refuted. Qed.
+Print Assumptions C13_roundtrip_statement_refuted.
